@@ -196,6 +196,9 @@ def equality_scenarios(prog, res, rule):
     unequal_pairs = [
         ([("A", 1)], [("A", 2)]), ([("2", 1), ("A", 1)], [("3", 1), ("A", 1)]), ([("C", 1)], [("D", 1)]),
         ([("A", 1)], [("V", 1)]), ([("A", 1), ("V", -1)], [("A", -1), ("V", 1)]), ([("2", 1)], [("2", -1)]),
+        # one normal form is a proper prefix of the other
+        ([("A", 1)], [("A", 1), ("V", 1)]), ([("2", 1)], [("2", 1), ("A", 1)]), ([], [("A", 1)]),
+        ([("C", 1)], [("C", 1), ("D", -1)]), ([("2", 1), ("A", 1)], [("2", 1), ("A", 1), ("V", -1)]),
     ]
 
     def eq_body(s1, s2):
